@@ -161,8 +161,8 @@ def contents_predicates(ctx, rule):
     g = ctx.body(B + "get_source_contents")
     calls = [q.shape(g.expr_of_call(t)) for bi, t in g.calls()]
     rets = [sh for sh, _, _ in q.def_shapes(g, 0, {})]
-    want = ["Option::and_then(slice::get(arg1.source_contents,cast<usize>(arg2)),%s(Option::map(Option::as_ref(p1),%s(p1[RangeFull{}]))))" % (LAM, LAM),
-            "Option::and_then(slice::get(arg1.source_contents,cast<usize>(arg2)),%s(Option::as_deref(p1)))" % LAM]
+    want = ["Option::and_then(slice::get(arg1.source_contents,cast<usize>(arg2)),%s(Option::as_ref(p1)))" % LAM,
+            "Option::and_then(slice::get(arg1.source_contents,cast<usize>(arg2)),%s(Option::as_ref(p1)))" % LAM]
     ctx.check(len(rets) == 1 and rets[0] in want, rule, g.path, "get:flatten-option",
               "get_source_contents(id) is Some only when the slot exists *and* holds contents (Option<Option<_>> flattened with and_then; an empty slot reads as no contents)", detail=str(rets))
     sg = ctx.body("types::SourceMap::get_source_contents")
@@ -257,7 +257,7 @@ def cache_coherence(ctx, rule):
     root_w = [(bi, si) for bi, si, s, it in b.locations() if not it and s["k"] == "assign" and _is_field(s["place"], "source_root")]
     cache_w = [(bi, si, q.shape(b.expr_of_rvalue(s["rv"]))) for bi, si, s, it in b.locations() if not it and s["k"] == "assign" and _is_field(s["place"], "sources_prefixed")]
     shapes = sorted(s for _, _, s in cache_w)
-    ROOT = "Option::filter(Option::as_deref(arg1.source_root),%s(Not(str::is_empty(p1))))" % LAM
+    ROOT = "Option::filter(Option::as_ref(arg1.source_root),%s(Not(str::is_empty(p1))))" % LAM
     ok = len(shapes) == 2 and shapes[0] == "Option::None{}" and shapes[1] == "Option::Some{0:Iterator::collect(Iterator::map(slice::iter(arg1.sources),%s(SourceMap::prefix_source(^some(%s),p1))))}" % (LAM, ROOT)
     ctx.check(ok, rule, b.path, "cache:rebuilt-from-all-sources", "the cache is rebuilt from *all* sources when the root is non-empty and cleared otherwise", detail=str(shapes))
     if root_w:
@@ -271,11 +271,11 @@ def cache_coherence(ctx, rule):
     calls = [q.shape(s.expr_of_call(t)) for bi, t in s.calls()]
     ok1 = "arg1.sources[cast<usize>(arg2)]" in calls
     ok2 = "some(Option::as_mut(arg1.sources_prefixed))[cast<usize>(arg2)]" in calls
-    ok3 = "SourceMap::prefix_source(Option::unwrap(Option::as_deref(arg1.source_root)),arg3)" in calls
+    ok3 = "SourceMap::prefix_source(Option::unwrap(Option::as_ref(arg1.source_root)),arg3)" in calls
     ctx.check(ok1 and ok2 and ok3, rule, s.path, "set_source:patch", "set_source stores the raw name and patches the same index of the cache with prefix_source(current root, value)", detail=str(calls)[:400])
     g = ctx.body("types::SourceMap::get_source")
     calls = [q.shape(g.expr_of_call(t)) for bi, t in g.calls()]
-    ctx.check("slice::get(Option::unwrap_or(Option::as_deref(arg1.sources_prefixed),arg1.sources),cast<usize>(arg2))" in calls, rule, g.path, "get_source:reads-cache",
+    ctx.check("slice::get(Option::unwrap_or(Option::as_ref(arg1.sources_prefixed),arg1.sources),cast<usize>(arg2))" in calls, rule, g.path, "get_source:reads-cache",
               "get_source reads the cache when present and the raw names otherwise", detail=str(calls)[:300])
     n = ctx.body("types::SourceMap::new")
     lit = [n.expr_of_rvalue(s2["rv"]) for bi, si, s2, it in n.locations() if not it and s2["k"] == "assign" and s2["rv"]["k"] == "agg" and s2["rv"].get("adt") == SM_T]
@@ -374,18 +374,21 @@ def plain_setters(ctx, rule):
 
 
 def contents_resize(ctx, rule):
-    for fn, vec, cmp_ok in ((B + "set_source_contents", "source_contents", ("Lt(Vec::len(arg1.source_contents),Vec::len(arg1.sources))",)),
-                            ("types::SourceMap::set_source_contents", "sources_content", ("Ne(Vec::len(arg1.sources),Vec::len(arg1.sources_content))", "Ne(Vec::len(arg1.sources_content),Vec::len(arg1.sources))",
-                                                                                         "Lt(Vec::len(arg1.sources_content),Vec::len(arg1.sources))"))):
+    for fn, vec in ((B + "set_source_contents", "source_contents"), ("types::SourceMap::set_source_contents", "sources_content")):
         b = ctx.body(fn)
         rz = [(bi, q.shape(b.expr_of_call(t))) for bi, t in q.calls_to(b, "Vec::<T, A>::resize")]
         ok = len(rz) == 1 and rz[0][1] == "Vec::resize(arg1.%s,Vec::len(arg1.sources),Option::None{})" % vec
         ctx.check(ok, rule, fn, "resize", "the contents vector is grown to sources.len()", detail=str(rz))
         ix = [bi for bi, t in b.calls() if q.nice(t.get("callee")) == "IndexMut::index_mut" and q.shape(b.expr_of_call(t)) == "arg1.%s[cast<usize>(arg2)]" % vec]
         if ctx.check(len(ix) == 1 and len(rz) == 1, rule, fn, "indexed-write", "the entry is written by index"):
-            sw = [d for d in range(len(b.blocks)) if b.blocks[d]["term"]["k"] == "switch" and q.shape(b.expr_of_operand(b.blocks[d]["term"]["discr"])) in cmp_ok]
-            ok = len(sw) == 1 and b.dominates(sw[0], ix[0]) and b.dominates(sw[0], rz[0][0]) and b.reaches(rz[0][0], ix[0])
-            ctx.check(ok, rule, fn, "resize-before-write", "the length comparison and (when shorter) the resize happen before the indexed write on every path")
+            C, S = "Vec::len(arg1.%s)" % vec, "Vec::len(arg1.sources)"
+            # the resize runs at least whenever the vector is shorter than sources (<, <= and != all do)
+            guards = [f.key() for f in q.facts_at(b, rz[0][0], {}) if f.op in ("Lt", "Le", "Eq", "Ne", "true", "false") and (C in str(f.key()) or S in str(f.key()))]
+            ok = guards in ([], [("Lt", C, S)], [("Le", C, S)], [("Ne", C, S)], [("Ne", S, C)]) and b.reaches(rz[0][0], ix[0])
+            # ... and every path to the write passed the comparison (or the unconditional resize)
+            sw = [c.bb for c in q.path_conditions(b, rz[0][0])][-1:] or [rz[0][0]]
+            ok = ok and b.dominates(sw[0], ix[0])
+            ctx.check(ok, rule, fn, "resize-before-write", "the length comparison and (when shorter) the resize happen before the indexed write on every path", detail=str(guards))
 
 
 # ---------------------------------------------------------------------------------------------
